@@ -89,6 +89,7 @@ type c15Prop struct {
 	period    time.Duration
 	quorum    sdkmath.LegacyDec
 	votes     map[string]govv1.VoteOption // voter bech32 -> option
+	split    map[string]govv1.WeightedVoteOptions // weighted votes (a later vote of the same voter replaces the earlier one, of either kind)
 	done      bool
 	outcome   string
 	execFails bool // messages are built to fail on execution
@@ -409,7 +410,7 @@ func (r *c15Run) vote() {
 		return
 	}
 	p := ps[r.rng.IntN(len(ps))]
-	if p.quorum.Equal(sdkmath.LegacyOneDec()) && len(p.votes) == 0 {
+	if p.quorum.Equal(sdkmath.LegacyOneDec()) && len(p.votes) == 0 && len(p.split) == 0 {
 		// everybody has to vote, and everybody does
 		for _, v := range []chain.Key{r.c.Vals[0].Operator, r.c.Vals[1].Operator, r.c.Vals[2].Operator, r.deleg} {
 			if res := fix.GovVote(r.c, v, p.id, govv1.OptionYes); res.OK() {
@@ -419,7 +420,7 @@ func (r *c15Run) vote() {
 		r.res.Count("turnout_equal_to_quorum_attempts", 1)
 		return
 	}
-	if ev, ok := r.exactVoters[p.url]; ok && len(p.votes) == 0 {
+	if ev, ok := r.exactVoters[p.url]; ok && len(p.votes) == 0 && len(p.split) == 0 {
 		// exactly the validators whose combined share equals the quorum of this type vote yes
 		for _, v := range ev {
 			if res := fix.GovVote(r.c, v, p.id, govv1.OptionYes); res.OK() {
@@ -433,10 +434,41 @@ func (r *c15Run) vote() {
 	v := voters[r.rng.IntN(len(voters))]
 	opts := []govv1.VoteOption{govv1.OptionYes, govv1.OptionYes, govv1.OptionYes, govv1.OptionNo, govv1.OptionAbstain, govv1.OptionNoWithVeto}
 	o := opts[r.rng.IntN(len(opts))]
+	if r.rng.IntN(5) == 0 {
+		// a vote split over two or three options: its power counts once towards the turnout
+		o2 := opts[r.rng.IntN(len(opts))]
+		for o2 == o {
+			o2 = []govv1.VoteOption{govv1.OptionYes, govv1.OptionNo, govv1.OptionAbstain, govv1.OptionNoWithVeto}[r.rng.IntN(4)]
+		}
+		ws := govv1.WeightedVoteOptions{{Option: o, Weight: "0.5"}, {Option: o2, Weight: "0.5"}}
+		switch r.rng.IntN(3) {
+		case 0:
+			ws = govv1.WeightedVoteOptions{{Option: o, Weight: "0.75"}, {Option: o2, Weight: "0.25"}}
+		case 1:
+			for _, o3 := range []govv1.VoteOption{govv1.OptionAbstain, govv1.OptionYes, govv1.OptionNo} {
+				if o3 != o && o3 != o2 {
+					ws = govv1.WeightedVoteOptions{{Option: o, Weight: "0.2"}, {Option: o2, Weight: "0.3"}, {Option: o3, Weight: "0.5"}}
+					break
+				}
+			}
+		}
+		res := fix.GovVoteWeighted(r.c, v, p.id, ws)
+		r.logf("weighted vote %v on %d by %s -> %s", ws, p.id, v.Label, short(res.ErrString()))
+		if res.OK() {
+			r.res.Count("weighted_votes", 1)
+			if p.split == nil {
+				p.split = map[string]govv1.WeightedVoteOptions{}
+			}
+			p.split[v.Bech32()] = ws
+			delete(p.votes, v.Bech32())
+		}
+		return
+	}
 	res := fix.GovVote(r.c, v, p.id, o)
 	r.logf("vote %s on %d by %s -> %s", o, p.id, v.Label, short(res.ErrString()))
 	if res.OK() {
 		p.votes[v.Bech32()] = o
+		delete(p.split, v.Bech32())
 	}
 }
 
@@ -444,28 +476,33 @@ func (r *c15Run) vote() {
 func (r *c15Run) expectedTally(p *c15Prop) (passes bool, burn bool, participation sdkmath.LegacyDec) {
 	c := r.c
 	totalBonded, _ := c.App.StakingKeeper.TotalBondedTokens(c.Ctx)
-	power := map[govv1.VoteOption]sdkmath.Int{govv1.OptionYes: sdkmath.ZeroInt(), govv1.OptionNo: sdkmath.ZeroInt(), govv1.OptionAbstain: sdkmath.ZeroInt(), govv1.OptionNoWithVeto: sdkmath.ZeroInt()}
+	zero := sdkmath.LegacyZeroDec()
+	power := map[govv1.VoteOption]sdkmath.LegacyDec{govv1.OptionYes: zero, govv1.OptionNo: zero, govv1.OptionAbstain: zero, govv1.OptionNoWithVeto: zero}
 	total := sdkmath.ZeroInt()
-	add := func(o govv1.VoteOption, x sdkmath.Int) {
-		power[o] = power[o].Add(x)
-		total = total.Add(x)
-	}
-	delegVoted := false
-	if o, ok := p.votes[r.deleg.Bech32()]; ok {
-		add(o, r.delegStake)
-		delegVoted = true
-	}
-	for i, v := range c.Vals {
-		o, ok := p.votes[v.Operator.Bech32()]
-		if !ok {
-			continue
+	// a voter's power counts once towards the turnout, however its vote is split over the options
+	cast := func(addr string, x sdkmath.Int) bool {
+		if ws, ok := p.split[addr]; ok {
+			for _, w := range ws {
+				power[w.Option] = power[w.Option].Add(sdkmath.LegacyNewDecFromInt(x).Mul(sdkmath.LegacyMustNewDecFromStr(w.Weight)))
+			}
+			total = total.Add(x)
+			return true
 		}
+		if o, ok := p.votes[addr]; ok {
+			power[o] = power[o].Add(sdkmath.LegacyNewDecFromInt(x))
+			total = total.Add(x)
+			return true
+		}
+		return false
+	}
+	delegVoted := cast(r.deleg.Bech32(), r.delegStake)
+	for i, v := range c.Vals {
 		val, _ := c.App.StakingKeeper.GetValidator(c.Ctx, v.Operator.Val())
 		pw := val.Tokens
 		if i == 0 && delegVoted {
 			pw = pw.Sub(r.delegStake)
 		}
-		add(o, pw)
+		cast(v.Operator.Bech32(), pw)
 	}
 	participation = sdkmath.LegacyNewDecFromInt(total).Quo(sdkmath.LegacyNewDecFromInt(totalBonded))
 	if participation.Equal(p.quorum) && !p.quorum.IsZero() {
@@ -475,19 +512,19 @@ func (r *c15Run) expectedTally(p *c15Prop) (passes bool, burn bool, participatio
 	if participation.LT(p.quorum) {
 		return false, gp.BurnVoteQuorum, participation
 	}
-	nonAbstain := total.Sub(power[govv1.OptionAbstain])
+	nonAbstain := sdkmath.LegacyNewDecFromInt(total).Sub(power[govv1.OptionAbstain])
 	if nonAbstain.IsZero() {
 		return false, false, participation
 	}
 	veto := sdkmath.LegacyMustNewDecFromStr(gp.VetoThreshold)
-	if sdkmath.LegacyNewDecFromInt(power[govv1.OptionNoWithVeto]).Quo(sdkmath.LegacyNewDecFromInt(total)).GT(veto) {
+	if power[govv1.OptionNoWithVeto].Quo(sdkmath.LegacyNewDecFromInt(total)).GT(veto) {
 		return false, gp.BurnVoteVeto, participation
 	}
 	thr := sdkmath.LegacyMustNewDecFromStr(gp.Threshold)
 	if p.expedited {
 		thr = sdkmath.LegacyMustNewDecFromStr(gp.ExpeditedThreshold)
 	}
-	if sdkmath.LegacyNewDecFromInt(power[govv1.OptionYes]).Quo(sdkmath.LegacyNewDecFromInt(nonAbstain)).GT(thr) {
+	if power[govv1.OptionYes].Quo(nonAbstain).GT(thr) {
 		return true, false, participation
 	}
 	return false, false, participation
@@ -540,6 +577,7 @@ func (r *c15Run) block(dt time.Duration) bool {
 			p.expedited = false
 			p.votEnd = p.votStart.Add(*gp.VotingPeriod)
 			p.votes = map[string]govv1.VoteOption{}
+			p.split = nil
 			r.res.Count("expedited_conversions", 1)
 			sp, ok := fix.Proposal(c, p.id)
 			if !ok || sp.Status != govv1.StatusVotingPeriod || sp.Expedited || sp.VotingEndTime == nil || !sp.VotingEndTime.Equal(p.votEnd) {
